@@ -112,3 +112,64 @@ USER_CLASSES = [UNode, UNodeSub, ABCNode2D, UExplicit, UInitFalse, UHashFalse, U
 LEGACY_CLASSES = [LegacyPure, LegacyVar, LegacySum]
 
 # }}}
+
+
+# {{{ subjects for optimize_mapper (the optimizer reads class *source* from this file)
+
+class OptPlainRenamer(IdentityMapper):
+    """uncached, argument-free"""
+
+    def map_variable(self, expr):
+        return p.Variable(expr.name + "_r")
+
+
+class OptCachedRenamer(CachedIdentityMapper):
+    """cached, argument-free: admits all 32 option combinations"""
+
+    def map_variable(self, expr):
+        return p.Variable(expr.name + "_r")
+
+    def get_cache_key(self, expr):
+        return (type(expr), expr)
+
+
+class OptArgRenamer(CachedIdentityMapper):
+    """cached, takes an extra positional and a keyword argument"""
+
+    def map_variable(self, expr, prefix, *, suffix="s"):
+        return p.Variable(prefix + expr.name + suffix)
+
+
+class OptArgPlain(IdentityMapper):
+    """uncached, takes extra arguments"""
+
+    def map_variable(self, expr, prefix, *, suffix="s"):
+        return p.Variable(prefix + expr.name + suffix)
+
+    def map_constant(self, expr, prefix, *, suffix="s"):
+        return expr + len(prefix) if isinstance(expr, int) and not isinstance(expr, bool) else expr
+
+
+class OptCachedCounter(CachedIdentityMapper):
+    """cached, argument-free, counts handler entries (at-most-once observable)"""
+
+    def __init__(self):
+        super().__init__()
+        self.entered = 0
+
+    def map_sum(self, expr):
+        self.entered += 1
+        return super().map_sum(expr)
+
+    def map_variable(self, expr):
+        self.entered += 1
+        return p.Variable(expr.name.upper())
+
+    def get_cache_key(self, expr):
+        return (type(expr), expr)
+
+
+OPT_SUBJECTS = {c.__name__: c for c in (OptPlainRenamer, OptCachedRenamer, OptArgRenamer,
+                                        OptArgPlain, OptCachedCounter)}
+
+# }}}
